@@ -507,6 +507,23 @@ SPECIAL_TEXTS = ["\ufeffsession closed", "\ufeff", "a\ufeff", "bye\n", "bye\r\n"
                  "\U0001f600", "x\U0001f600", "user@host", "@", "\u200bz", "BYE", "bye.", "caf\u00e9", "e\u0301"]
 
 
+def bye_reason_lengths(r):
+    """BYE packets whose reason length octet is every value around what the packet holds (fits with room,
+    fits exactly, overruns by one, by a word, by much), for 0..2 sources and every small packet size"""
+    out = []
+    for ns in (0, 1, 2):
+        src = b"".join(struct.pack(">I", 0x0a0b0c00 + i) for i in range(ns))
+        for words in (1, 2, 3, 4):
+            room = 4 * words - 1                     # octets after the length octet
+            for rl in sorted({0, 1, room - 4, room - 1, room, room + 1, room + 2, room + 4, room + 5, 255} - {-1, -2, -3}):
+                if rl < 0: continue
+                text = bytes(0x61 + (i % 26) for i in range(room))
+                body = src + bytes([rl]) + text
+                b = bytes([0x80 | ns, 203]) + struct.pack(">H", (4 + len(body)) // 4 - 1) + body
+                out.append(P("bye", b)); out.append(P("packet", b))
+    return out
+
+
 def bye_empty_reason(r):
     """BYE packets whose reason is present and empty (`00 00 00 00` after the sources), and near misses;
     no builder writes them: parsed directly, through the generic parser, and padded"""
